@@ -30,6 +30,18 @@ MUTATIONS = [
     M("unicode-error-escapes", (OPTIONS, "            except UnicodeDecodeError as e:\n", "            except UnicodeTranslateError as e:\n")),
 ]
 
+# changes a white-box adversary found the quick tier silent on (notes/adversary/C15_miss*.md);
+# caught since the driver knows write backlog and concurrently opened connections and the
+# generators pipeline and give signalling messages tokens and diagnostic payloads
+A = "notes/adversary/"
+MUTATIONS += [
+    ("C15", "adv-error-dispatch-only-for-pooled-connection", [("@patch", A + "C15_miss1.diff", 3)]),
+    ("C15", "adv-abort-discarded-by-transport-abort", [("@patch", A + "C15_miss2.diff", 3)]),
+    ("C15", "adv-at-most-64-messages-per-data-received", [("@patch", A + "C15_miss3.diff", 3)]),
+    ("C15", "adv-release-reported-only-from-connection-lost", [("@patch", A + "C15_miss4.diff", 3)]),
+    ("C15", "adv-signalling-payload-refused", [("@patch", A + "C15_miss5.diff", 3)]),
+]
+
 CONTROLS = [
     M("spool-concatenated-differently", (TCP, "        self._spool += data\n", "        self._spool = b\"\".join((self._spool, bytes(data)))\n")),
     M("abort-diagnostic-reworded", (TCP, "                self.abort(\"Overly large message announced\")", "                self.abort(\"Message longer than my Max-Message-Size\")")),
